@@ -12,23 +12,33 @@ def canon (s : St) : St :=
   { s with outcomes := (s.outcomes.toArray.qsort (fun a b => okey a < okey b)).toList,
            callbacks := (s.callbacks.toArray.qsort (fun a b => (if a.1 then 1000000 else 0) + a.2.1 * 1000 + a.2.2.1 < (if b.1 then 1000000 else 0) + b.2.1 * 1000 + b.2.2.1)).toList }
 
-def quiesceAux : Nat → List St → List St → List St → List St
+/-- in *fifo* mode, of the deliveries blocked on the same subscriber only the one from the earliest Publish may
+    send next: the Go runtime queues the blocked senders of a channel first-in-first-out, and the harness lets the
+    deliveries of one Publish block before it issues the next operation.  A search order, not an assumption: when
+    no candidate found in fifo mode matches an observation the case is replayed with every order (see `loop`). -/
+def fifoActs (fifo : Bool) (s : St) (acts : List Act) : List Act :=
+  if !fifo then acts else
+  acts.filter fun a => match a with
+    | .deliver u sub => !(acts.any fun b => match b with | .deliver u' sub' => sub' == sub && u' < u | _ => false)
+    | _ => true
+
+def quiesceAux (fifo : Bool) : Nat → List St → List St → List St → List St
   | 0, _, _, q => q
   | _ + 1, [], _, q => q
   | f + 1, s :: rest, seen, q =>
-    if seen.contains s then quiesceAux f rest seen q else
-    let acts := internalActs s
-    if acts.isEmpty then quiesceAux f rest (s :: seen) (s :: q)
+    if seen.contains s then quiesceAux fifo f rest seen q else
+    let acts := fifoActs fifo s (internalActs s)
+    if acts.isEmpty then quiesceAux fifo f rest (s :: seen) (s :: q)
     else
       -- partial-order reduction: taking the read lock, a timer firing, a cancellation and the end of a
       -- close commute with every other enabled internal step and never disable one (a delivery whose
       -- deadline has passed sits at a full buffer, else it would have been sent before the clock
       -- advanced), so one representative order suffices; only competing sends into a buffer branch.
       match acts.find? (fun a => match a with | .acquireR _ _ | .timeout _ _ | .cancel _ _ | .closeFinish _ => true | _ => false) with
-      | some a => quiesceAux f (((step? s a).toList).map canon ++ rest) (s :: seen) q
-      | none => quiesceAux f ((acts.filterMap (step? s)).map canon ++ rest) (s :: seen) q
+      | some a => quiesceAux fifo f (((step? s a).toList).map canon ++ rest) (s :: seen) q
+      | none => quiesceAux fifo f ((acts.filterMap (step? s)).map canon ++ rest) (s :: seen) q
 
-def quiesce (s : St) : List St := quiesceAux 20000 [canon s] [] []
+def quiesce (fifo : Bool) (s : St) : List St := quiesceAux fifo 20000 [canon s] [] []
 
 def cbKey (c : Bool × Nat × Nat) : Nat := (if c.1 then 1000000 else 0) + c.2.1 * 1000 + c.2.2
 def sortCbs (l : List (Bool × Nat × Nat)) : List (Bool × Nat × Nat) :=
@@ -70,6 +80,8 @@ structure CaseSt where
   unstable : Bool := false
   feats : List String := []
   text : String := ""
+  fifo : Bool := true
+  hist : List (String × String) := []
 
 structure R where
   diffs : List String := []
@@ -77,7 +89,7 @@ structure R where
   branch : String := "?"
   model : String := ""
 
-def advance (cands : List St) (f : St → List St) : List St := (cands.flatMap f).flatMap quiesce |>.eraseDups
+def advance (fifo : Bool) (cands : List St) (f : St → List St) : List St := (cands.flatMap f).flatMap (quiesce fifo) |>.eraseDups
 
 def parseFilter : String → Filter
   | "even" => .even | "odd" => .odd | "never" => .never | _ => .none
@@ -137,11 +149,11 @@ def step (cs : CaseSt) (op obs : String) : CaseSt × R :=
     -- model side
     let (cands', prefixOK) : List St × Bool :=
       match kind with
-      | "new" => (quiesce init, true)
+      | "new" => (quiesce cs.fifo init, true)
       | "sub" =>
-        (advance cs.cands (fun s => (step? s (.subscribe ((getNat fs "cap").getD 0) (parseFilter ((getF fs "filter").getD "none"))
+        (advance cs.fifo cs.cands (fun s => (step? s (.subscribe ((getNat fs "cap").getD 0) (parseFilter ((getF fs "filter").getD "none"))
             (if getF fs "to" == some "short" then 1 else 1000) (getF fs "cbf" == some "1") (getF fs "cbt" == some "1"))).toList), true)
-      | "pub" => (advance cs.cands (fun s => (step? s (.publish ((getNat fs "v").getD 0))).toList), true)
+      | "pub" => (advance cs.fifo cs.cands (fun s => (step? s (.publish ((getNat fs "v").getD 0))).toList), true)
       | "recv" =>
         let k := (getNat fs "sub").getD 0
         -- each candidate may answer differently; keep (state, answer) pairs that agree with the implementation
@@ -152,16 +164,18 @@ def step (cs : CaseSt) (op obs : String) : CaseSt × R :=
             match x.buf with
             | v :: _ => (step? s (.receive k)).toList.map (fun s' => (s', toString v))
             | [] =>
-              let hs := holders s k
+              let hs0 := holders s k
+              -- fifo mode: the receiver meets the sender that has been blocked longest
+              let hs := if cs.fifo then (match hs0 with | [] => [] | d :: r => [r.foldl (fun m e => if e.uid < m.uid then e else m) d]) else hs0
               if !hs.isEmpty && !x.chClosed then hs.filterMap (fun d => (step? s (.rendezvous k d.uid)).map (fun s' => (s', toString d.msg)))
               else if x.chClosed then [(s, "closed")] else [(s, "none")]
         let pairs := cs.cands.flatMap answers
         let ok := pairs.filter (fun p => some p.2 == got)
-        ((ok.map (·.1)).flatMap quiesce |>.eraseDups, !ok.isEmpty)
-      | "closesub" => (advance cs.cands (fun s => (step? s (.closeSub ((getNat fs "sub").getD 0))).toList), true)
-      | "closepub" => (advance cs.cands (fun s => (step? s .closePub).toList), true)
-      | "sleep" => (advance cs.cands (fun s => (step? s .tick).toList), true)
-      | "obs" | "final" => (advance cs.cands (fun s => [s]), true)
+        ((ok.map (·.1)).flatMap (quiesce cs.fifo) |>.eraseDups, !ok.isEmpty)
+      | "closesub" => (advance cs.fifo cs.cands (fun s => (step? s (.closeSub ((getNat fs "sub").getD 0))).toList), true)
+      | "closepub" => (advance cs.fifo cs.cands (fun s => (step? s .closePub).toList), true)
+      | "sleep" => (advance cs.fifo cs.cands (fun s => (step? s .tick).toList), true)
+      | "obs" | "final" => (advance cs.fifo cs.cands (fun s => [s]), true)
       | _ => ([], false)
     let matching := cands'.filter (fun s => { obsOf s with blocked := o.blocked } == o)
     let modelStr := match cands'.head? with | some s => showObs (obsOf s) | none => "no-candidate"
@@ -184,9 +198,19 @@ partial def loop (h : IO.FS.Stream) (st : Stats) (cs : CaseSt) (caseNo : String)
   else if line.isEmpty then loop h st cs caseNo lineNo
   else
     let (op, obs) := splitTrace line
-    let (cs', r) := step cs op obs
+    let (cs1, r1) := step cs op obs
+    -- fifo search found no matching candidate: replay the case so far with every order of competing senders
+    let (cs', r, fellBack) :=
+      if cs.fifo && !cs.dead && !cs.unstable && !r1.diffs.isEmpty && !(r1.diffs.contains "alive") then
+        let full := cs.hist.reverse.foldl (fun acc (x : String × String) => (step acc x.1 x.2).1) ({ fifo := false } : CaseSt)
+        if full.dead then (cs1, r1, false) else
+        let (c2, r2) := step full op obs
+        (c2, r2, true)
+      else (cs1, r1, false)
+    let cs' := { cs' with hist := (op, obs) :: cs.hist }
     let mut st := { st with ops := st.ops + 1 }
     st := st.bump r.branch
+    if fellBack then st := st.bump "search.full-sender-orders"
     unless r.diffs.isEmpty do
       IO.println s!"DIFF case={caseNo} line={lineNo} fields={",".intercalate r.diffs} model=[{r.model}] impl=[{obs}] op=[{op}]"
       st := { st with diffs := st.diffs + 1 }
